@@ -116,8 +116,24 @@ BigFC == Obj(<<T("FeatureCollection"), <<"features", Arr([k \in 1..70 |-> Obj(<<
 BigGC == Obj(<<T("GeometryCollection"), <<"geometries", Arr([k \in 1..66 |-> IF k % 11 = 0 THEN Obj(<<T("MultiPoint"), C(Arr(<<>>))>>)
                                                                          ELSE Obj(<<T("LineString"), C(Arr(<<P2(10 + (k % 40), 12), P2(11 + (k % 40), 13 + (k % 30))>>))>>)])>>>>)
 BigDocs == <<BigLine, BigPoly, BigMulti, BigFC, BigGC>>
+\* deeply nested documents (never mutated): the grammar has no depth limit
+RECURSIVE NestGC(_, _)
+NestGC(d, k) == IF k = 0 THEN d ELSE NestGC(Obj(<<T("GeometryCollection"), <<"geometries", Arr(<<d>>)>>>>), k - 1)
+RECURSIVE NestFC(_, _)
+NestFC(d, k) == IF k = 0 THEN d ELSE NestFC(Obj(<<T("FeatureCollection"), <<"features", Arr(<<Obj(<<T("Feature"), <<"geometry", d>>, <<"properties", Null>>>>)>>)>>>>), k - 1)
+\* (depths are bounded by the JSON reader of the trace validator: 255 array levels, five per nesting step)
+DeepDocs == <<NestGC(PointD, 33), NestGC(LineD, 46), NestFC(PolyD, 17), Obj(<<T("Feature"), <<"geometry", NestGC(PointD, 40)>>>>),
+              NestGC(Obj(<<T("GeometryCollection"), <<"geometries", Arr(<<PointD, LineD>>)>>>>), 44)>>
+\* rings that miss closure by the smallest amount a number table can express (token 3 against token 0: 5e-324 in one table): rejected
+NearDocs == <<
+   Obj(<<T("Polygon"), C(Arr(<<Arr(<<P2(0,1), P2(4,1), P2(4,4), P2(3,1)>>)>>))>>),
+   Obj(<<T("Polygon"), C(Arr(<<Arr(<<P2(1,0), P2(4,1), P2(4,4), P2(1,3)>>)>>))>>),
+   Obj(<<T("Polygon"), C(Arr(<<Ring2, Arr(<<P2(2,0), P2(3,2), P2(3,3), P2(2,3)>>)>>))>>),
+   Obj(<<T("MultiPolygon"), C(Arr(<<Arr(<<Ring1>>), Arr(<<Arr(<<P2(0,0), P2(4,1), P2(4,4), P2(3,3)>>)>>)>>))>>),
+   Obj(<<T("Feature"), <<"geometry", Obj(<<T("Polygon"), C(Arr(<<Arr(<<P3(0,1,2), P3(4,1,2), P3(4,4,2), P3(3,1,2)>>)>>))>>)>>>>)
+>>
 NMutable == IF Mode = "c08" THEN Len(CoreDocs) + Len(ExtraDocs) ELSE Len(CoreDocs)
-BaseDocs == IF Mode = "c08" THEN CoreDocs \o ExtraDocs \o BigDocs ELSE CoreDocs
+BaseDocs == (IF Mode = "c08" THEN CoreDocs \o ExtraDocs \o BigDocs ELSE CoreDocs) \o DeepDocs \o NearDocs
 Repl == <<Null, True, Num(1), Str("Nope"), Arr(<<>>), Obj(<<>>), Arr(<<Num(1)>>), Arr(<<Num(1), Num(2), Num(3), Num(4), Num(5)>>), P2(6,6)>>
 NOps == Len(Repl) + 6
 \* mutation m = <<path, op>>
@@ -137,7 +153,7 @@ Next == \/ b = 0 /\ \E k \in 1..Len(BaseDocs) : b' = k /\ mut' = <<>>
         \/ b > 0 /\ b <= NMutable /\ Len(mut) < MaxMut /\ \E p \in Paths(Doc) \ {<<>>} : \E op \in 1..NOps : mut' = Append(mut, <<p, op>>) /\ b' = b
 Spec == Init /\ [][Next]_vars
 \* base documents are well formed: they must be accepted
-BaseAccepted == b > 0 /\ mut = <<>> => Verdict(BaseDocs[b]) = "acc"
+BaseAccepted == b > 0 /\ mut = <<>> => Verdict(BaseDocs[b]) = (IF b > Len(BaseDocs) - Len(NearDocs) THEN "rej" ELSE "acc")
 Emit == b > 0 => LET d == Doc v == Verdict(d) l2 == AcceptL2(d) IN
         PrintT(ToString(<<"DOC", b, IF Len(mut) = 1 THEN mut[1] ELSE mut, d, v, IF v = "acc" THEN Decode(d) ELSE <<>>, l2[1], l2[2]>>))
 \* T7a: where L1 decides, the transcription of the parser agrees, except at the listed sites (printed as DEV)
